@@ -68,6 +68,9 @@ def forms(n, S, rng):
     if n in (2, 4) and len(S) <= 2:
         c = rng.randrange(1, N)
         out.append(("arith", f"def f(a: Qint[{n}]) -> bool:\n    b = a + {c}\n    return {' or '.join(f'b == {(s_ + c) % N}' for s_ in S)}\n", None, f"Qint{n}"))
+    # bool-returning function with an explicit target value: Grover(g, True) and Grover(not g, False)
+    out.append(("g_bool_true", f"def g(a: Qint[{n}]) -> bool:\n    return {eqs}\n", True, f"Qint{n}"))
+    out.append(("g_bool_false", f"def g(a: Qint[{n}]) -> bool:\n    return not ({' or '.join(minterm(s_) for s_ in S)})\n", False, f"Qint{n}"))
     if len(S) == 1:
         c = rng.randrange(1, N)
         out.append(("g_identity", f"def g(a: Qint[{n}]) -> Qint[{n}]:\n    return a\n", S[0], f"Qint{n}"))
